@@ -6,8 +6,10 @@ export VERIF_EVIDENCE_DIR=/verif/build/evidence-thorough
 mkdir -p $VERIF_EVIDENCE_DIR
 for id in ${@:-C07 C14 C18 C19 C15 C08 C11 C09 C12 C01 C02 C10 C17 C05 C13 C16 C20 C06 C03 C04}; do
   s=$(date +%s)
-  out=$(timeout 14400 ./check $id --tier thorough 2>/dev/null | grep -E "^C[0-9]+:|VIOLATION|INCONCLUSIVE|KNOWN" | tail -8)
-  rc=${PIPESTATUS[0]}
+  tmp=$(mktemp /verif/build/runout.XXXXXX)
+  timeout 14400 ./check $id --tier thorough > $tmp 2>/dev/null
+  rc=$?
+  out=$(grep -E "^C[0-9]+:|VIOLATION|INCONCLUSIVE|KNOWN" $tmp | tail -8); rm -f $tmp
   e=$(date +%s)
   echo "== $id rc=$rc $((e-s))s"; echo "$out" | cut -c1-400
 done
